@@ -1170,7 +1170,10 @@ fn add_block(world: &World, txs: Vec<Transaction>, salt: u64) -> Result<(), Stri
     all.extend(txs);
     let block = make_block(tip.0, all);
     let proof = TxoProof::prove_unchecked(&block, &tip.1, height + 1);
-    tracker.add_block(block.header, proof).map_err(|e| format!("add_block: {:?}", e))
+    tracker.add_block(block.header, proof).map_err(|e| format!("add_block: {:?}", e))?;
+    // as the protocol handler does after every block (the restarts below come back to this chain)
+    let node = &world.node;
+    lightning_signer::persist::Persist::update_tracker(&*node.get_persister(), &node.get_id(), &tracker).map_err(|e| format!("persist tracker: {:?}", e))
 }
 
 fn make_funding_tx(rng: &mut Rng, vout: u32, value: u64) -> Transaction {
@@ -1382,7 +1385,7 @@ fn run_world(ctx: &Ctx, rng: &mut Rng, r: &mut Report, extreme: bool) {
         onchain,
         filter,
     };
-    let world = World::new(cfg);
+    let mut world = World::new(cfg);
     r.count("worlds");
     r.count(if onchain { "worlds.onchain" } else { "worlds.simple" });
     if !p.filter.rules.is_empty() {
@@ -1557,6 +1560,17 @@ fn run_world(ctx: &Ctx, rng: &mut Rng, r: &mut Report, extreme: bool) {
         if dead {
             break;
         }
+        // a signer restart now and then: what the restored signer knows about the chain (heights, funding and
+        // closing depth of every channel) must keep following the blocks fed afterwards
+        if rng.chance(1, 12) {
+            match report::catch(|| world.restart()) {
+                Ok(Ok(())) => r.count("chain.restart"),
+                other => {
+                    r.inconclusive(&format!("harness: restart failed: {:?}", other).chars().take(200).collect::<String>());
+                    return;
+                }
+            }
+        }
         // chain events
         let ev = rng.below(100);
         if ev < 22 {
@@ -1660,9 +1674,16 @@ fn run_world(ctx: &Ctx, rng: &mut Rng, r: &mut Report, extreme: bool) {
         match mon_height {
             Ok(Ok(hh)) if hh as u64 == height => {}
             Ok(Ok(hh)) => {
-                r.count("ghost.height_mismatch");
-                r.inconclusive(&format!("harness: ghost height {} != monitor height {}", height, hh));
-                return;
+                // the tracker is what the blocks were fed to: if it agrees with the ghost, it is the channel's own
+                // view of the chain that lags (the judgement below goes by the chain as it was fed)
+                let tracker_height = world.node.get_tracker().height() as u64;
+                if tracker_height == height {
+                    r.count("ghost.channel_view_of_the_chain_differs_from_the_tracker");
+                } else {
+                    r.count("ghost.height_mismatch");
+                    r.inconclusive(&format!("harness: ghost height {} != tracker height {} (monitor height {})", height, tracker_height, hh));
+                    return;
+                }
             }
             _ => {
                 r.count("panic.with_channel");
